@@ -20,26 +20,17 @@ where
     Ok(T::deserialize(de).unwrap_or_default())
 }
 
-#[derive(Debug, Default)]
+/// An element of a list whose unknown values must be ignored.
+///
+/// As an untagged enum the element is first buffered, which fails if the input itself is broken
+/// or ends early, and only then interpreted as `T`. An element that is not a valid `T` is
+/// skipped, but a list that declares more elements than the input holds is an error rather
+/// than a run of "unknown" values.
+#[derive(Debug, Deserialize)]
+#[serde(untagged)]
 enum PossiblyUnknown<T> {
     Some(T),
-    #[default]
-    None,
-}
-
-impl<'de, T> Deserialize<'de> for PossiblyUnknown<T>
-where
-    T: Deserialize<'de>,
-{
-    fn deserialize<D>(de: D) -> Result<Self, D::Error>
-    where
-        D: Deserializer<'de>,
-    {
-        Ok(match T::deserialize(de) {
-            Ok(val) => Self::Some(val),
-            Err(_) => Self::None,
-        })
-    }
+    None(serde::de::IgnoredAny),
 }
 
 pub(crate) fn ignore_unknown_opt_vec<'de, D, T>(de: D) -> Result<Option<Vec<T>>, D::Error>
